@@ -15,7 +15,7 @@ META = {
         "otherwise a disposal it records leaves the guarded holding untouched and the same shares can be sold again. R4 (PROV): "
         "every error built in the cascade formats the sale's ticker and date. R5: the quantities the guard reads are maintained by "
         "paired updates (shared with C02-R3: recorded = debited; pooled = marked on the lots). Does not decide the iff over histories nor the "
-        "decimal-residue refusal after a 3-for-1 split. R6: candidate purchases and ratio updates of the 30-day look-ahead sit under the ticker guard (shared with C02-R6/C09-R2), so another security's SPLIT cannot make the guarded holding drift."),
+        "decimal-residue refusal after a 3-for-1 split. R5 also: within one date the SPLIT/UNSPLIT pass strictly follows the pooling of that date's purchases (shared with C01-R2/C10-R7). R6: candidate purchases and ratio updates of the 30-day look-ahead sit under the ticker guard (shared with C02-R6/C09-R2), so another security's SPLIT cannot make the guarded holding drift."),
     "trusted_base": ["rustc MIR + resolution", "callee write sets are computed over workspace bodies only"],
 }
 
@@ -298,3 +298,7 @@ def run(ctx, rep):
     # of the look-ahead sit under the ticker guard (shared with C02-R6 / C09-R2); a SPLIT of another security inside the window
     # otherwise rescales the claim, the pool drifts and a covered sale is refused or an uncovered one accepted (seeded change C05-s8)
     c02.same_security(R, rep, "R6")
+    # …and rescaled at the right moment: a date's SPLIT/UNSPLIT lines act on the pool only after every purchase of that date has
+    # been pooled (shared with C01-R2 / C10-R7). Line by line, `UNSPLIT 2` written above a same-day BUY 100 leaves 150 where 100 are
+    # held, and an uncovered SELL 150 is answered with a report (seeded change C05-s9)
+    c10.phase_order(R, rep, "R5")
